@@ -167,6 +167,7 @@ def build_ctx(sc):
     ctx.master = {}
     ctx.next_uid = 0
     ctx.pool = []  # list of (obj, model)
+    ctx.results = []  # (object, digest at creation, what): results returned earlier
     ctx.rg = np.random.default_rng(w["mol_seed"])
     noise_rg = np.random.default_rng(w["tomo_seed"])
     for t in range(w["n_tomo"]):
@@ -720,6 +721,19 @@ def _model_add_loader(ctx, m, sm):
         m.ids += [image_id] * len(idx)
 
 
+def track_result(ctx, obj, what):
+    """Results handed to the user (aligned loaders) must not change later on, whatever else is computed afterwards."""
+    ctx.results.append((obj, digest(obj.molecules), what))
+    if len(ctx.results) > 8:
+        ctx.results.pop(0)
+
+
+def check_results_unchanged(ctx, op):
+    for obj, d0, what in ctx.results:
+        if digest(obj.molecules) != d0:
+            raise Violation("result-modified-later", what, f"the molecules returned earlier by {what} changed while {op} was executed")
+
+
 def _noninterference(before, after, allowed, op):
     for i, (a, b) in enumerate(zip(before, after)):
         if i in allowed:
@@ -845,6 +859,7 @@ def obs_model(ctx, ld, m, rg, op):
             res = ld.align(tmpl, max_shifts=ms, alignment_model=Model, **kw)
         if uids_of(res) != rows:
             raise Violation("row-misattributed", "align", "aligned loader lists other molecules than its source")
+        track_result(ctx, res, "align")
         pos = np.asarray(res.molecules.pos)
         feats = res.molecules.features
         for j in picks:
@@ -965,6 +980,7 @@ def obs_group_align(ctx, g, gm, rg):
     for (k, res), (_, mm) in zip(out, gm.groups):
         if uids_of(res) != mm.rows:
             raise Violation("row-misattributed", "group.align", f"group {k!r}: aligned loader lists other molecules")
+        track_result(ctx, res, "group.align")
         j = rg.randrange(len(mm.rows))
         src = dict(list(g))[k]
         iso = iso_loader(ctx, mm, mm.rows[j], row_of(src, j))
@@ -994,6 +1010,7 @@ def execute(sc):
         with W.knobs_ctx(sc["knobs"]), dask.config.set({"scheduler": sim.get}):
             for step_i, step in enumerate(sc["steps"]):
                 st = do_step(ctx, step, log)
+                check_results_unchanged(ctx, step["op"])
                 if st == "ok":
                     done += 1
                 else:
